@@ -1,5 +1,5 @@
 CFG = {
-    "lean_targets": ["Norad.Props.C06", "Norad.Props.C06Source"],
+    "lean_targets": ["Norad.Props.C06", "Norad.Props.C06Source", "Norad.Props.Small"],
     "audit": "Norad/Audit/C06.lean",
     "extract": "layer_ops",
     "search_timeout": 150,
